@@ -70,6 +70,17 @@ check("C04", "exploration",
       "that has a finally clause are not generated.",
       "bounded exhaustive enumeration of programs x all branch-decision vectors, path-in-graph oracle", "DESIGN.md §2 C04")
 
+check("C14", "exploration",
+      "Finite configuration product of real separate processes (the lian CLI behind a launcher that only adds a pure yaml parse "
+      "cache): 8 multi-file projects (6 Python incl. taint flows, callbacks, inheritance, packages; JavaScript; Java) x hash seeds "
+      "{0,1,2,3,7,42} (thorough 26 seeds) x workspace history {fresh, forced re-run, run after a different project used the "
+      "workspace} x {short, long} workspace path x p2 on/off; every file under frontend/, semantic_p1..p3/, taint/ must be "
+      "byte-identical to the project's baseline run, or - where bytes differ - decode to the same table once the per-run scratch "
+      "and workspace prefixes are replaced (the statement's 'apart from embedded workspace paths').",
+      "Bounded: seeds and filesystem orders are finite subsets of what the statement quantifies over; the evidence reports how many "
+      "distinct set-iteration orders the chosen seeds produce. Trusted: the launcher's parse cache returns what the parser would.",
+      "exhaustive enumeration of environment configurations (hash seed, workspace history, location), byte-equality oracle", "DESIGN.md §2 C14")
+
 check("C15", "model_checking",
       "Part A: explicit-state BFS on the real Loader for 10 bundle-backed result families (GIR, scope hierarchy, CFG, "
       "bit vectors, stmt status, symbol/state space, symbol graph, defined/used symbols, parameter mapping, decl ids): "
